@@ -18,7 +18,8 @@ func checkC01(c *Ctx) {
 		"K5 every key of the option map is collected by sortedKeys: an iteration bypasses the collecting append only for key == 82 / key == 255 (re-appended after the sort)")
 	r.NotDecided = append(r.NotDecided, "equality of values for all inputs (net.IP.To4, map semantics)", "combinations of options", "OptionValue constructors (C17)")
 	e2CheckLayouts(c, "C01-K1", isV4Header, 3)
-	c01Names(c)
+	byteOrderRule(c, "C01-K6", []string{"dhcpv4", "iana", "rfc1035label"}, 10)
+	c01Names(c, "C01-K2")
 	c01Split(c)
 	c09Reassembly2(c, "C01-K4")
 	sortedKeysComplete(c, "C01-K5")
@@ -26,11 +27,11 @@ func checkC01(c *Ctx) {
 }
 
 // c01Names: K2 reader side
-func c01Names(c *Ctx) {
+func c01Names(c *Ctx, rule string) {
 	r, sx := c.R, c.Sx()
 	f := c.P.Func(modPath + "/dhcpv4.FromBytes")
 	if f == nil {
-		r.Undecided("C01-K2", "dhcpv4.FromBytes", "-", "not found")
+		r.Undecided(rule, "dhcpv4.FromBytes", "-", "not found")
 		return
 	}
 	n := 0
@@ -50,9 +51,9 @@ func c01Names(c *Ctx) {
 		n++
 		s := sx.Of(st.Val).String()
 		okCut := strings.HasPrefix(s, "conv[string](slice(alloc(") && strings.Contains(s, "call[strings.Index](") && strings.Contains(s, `const("\x00")`)
-		r.Check(okCut, "C01-K2", "dhcpv4.FromBytes: "+name+" is the array cut at the first NUL (or whole)", c.P.ipos(st), "symx", name+" is "+s)
+		r.Check(okCut, rule, "dhcpv4.FromBytes: "+name+" is the array cut at the first NUL (or whole)", c.P.ipos(st), "symx", name+" is "+s)
 	})
-	r.Check(n == 2, "C01-K2", "dhcpv4.FromBytes: both names decoded", c.P.pos(f.Pos()), "instance count", fmt.Sprintf("%d name stores", n))
+	r.Check(n == 2, rule, "dhcpv4.FromBytes: both names decoded", c.P.pos(f.Pos()), "instance count", fmt.Sprintf("%d name stores", n))
 }
 
 // c01Split: K3
